@@ -664,38 +664,43 @@ func splitComma(s string) []string {
 }
 
 // parseFuncHeader parses "Name", "(*T).M", "(T).M" or, for externs,
-// "pkg.Name(p T, ...) (r T, ...)".
+// "pkg.Name(p T, ...) (r T, ...)" and "pkg.(*T).M(p T, ...) (r T, ...)".
 func parseFuncHeader(f *FuncSpec, s string) error {
 	s = strings.TrimSpace(s)
-	if strings.HasPrefix(s, "(") && !f.Extern {
+	// the parameter list starts at the first '(' that does not follow a '.'
+	// and is not at the very beginning
+	start := -1
+	for i := 0; i < len(s); i++ {
+		if s[i] != '(' {
+			continue
+		}
+		if i == 0 || s[i-1] == '.' {
+			// receiver group: skip to its closing parenthesis
+			d := 0
+			for ; i < len(s); i++ {
+				if s[i] == '(' {
+					d++
+				} else if s[i] == ')' {
+					d--
+					if d == 0 {
+						break
+					}
+				}
+			}
+			continue
+		}
+		start = i
+		break
+	}
+	if start < 0 {
 		f.Name = s
 		return nil
 	}
-	if !strings.Contains(s, "(") {
-		f.Name = s
-		return nil
-	}
-	if strings.HasPrefix(s, "(") {
-		// extern method: (*T).M(params) (results) ; find the ").": name ends before next "("
-		i := strings.Index(s, ").")
-		j := strings.Index(s[i+2:], "(")
-		if i < 0 || j < 0 {
-			f.Name = s
-			return nil
-		}
-		name := s[:i+2+j]
-		_, params, results, err := parseSig("x" + s[i+2+j:])
-		if err != nil {
-			return err
-		}
-		f.Name, f.Params, f.Results = name, params, results
-		return nil
-	}
-	name, params, results, err := parseSig(s)
+	_, params, results, err := parseSig("x" + s[start:])
 	if err != nil {
 		return err
 	}
-	f.Name, f.Params, f.Results = name, params, results
+	f.Name, f.Params, f.Results = strings.TrimSpace(s[:start]), params, results
 	return nil
 }
 
